@@ -435,9 +435,9 @@ std::string
 gen_c13()
 {
 	std::ostringstream t;
-	int mode = *pbt::welem<int>({{4, 0}, {1, 1}, {1, 2}});
+	int mode = *pbt::welem<int>({{4, 0}, {1, 1}, {1, 2}, {1, 3}});
 	int w    = *pbt::welem<int>({{4, 0}, {2, 1}, {4, 2}, {1, 3}});
-	t << "cfg " << *pbt::range<int>(1, 1000000) << " " << mode << " 20 " << *pbt::range<int>(1, 3) << " 800 0\n";
+	t << "cfg " << *pbt::range<int>(1, 1000000) << " " << mode << " " << (mode == 3 ? 20 : 20) << " " << *pbt::range<int>(1, 3) << " " << (mode == 3 ? *gen::element(60, 150, 400) : 800) << " 0\n";
 	if (w <= 1) {
 		int n = *gen::weightedElement<int>({{2, 0}, {4, 1}, {4, 2}, {4, 3}, {3, 4}, {2, 5}, {1, 8}, {1, 9}, {1, 10}, {1, 15}, {1, 16}, {1, 17}});
 		t << "world " << w << " " << n << " " << *pbt::range<int>(1, 3) << "\n";
